@@ -20,6 +20,15 @@ AREA_CHECKS = {
     "A6": ["C04", "C05", "C17", "C06"],
     "A7": ["C15", "C16", "C12", "C01"],
     "A8": ["C18", "C03", "C11", "C07", "C13"],
+    # second round: structurally bold rewrites
+    "B1": ["C13", "C14", "C15", "C19", "C20"],
+    "B2": ["C01", "C10", "C11", "C12", "C19"],
+    "B3": ["C01", "C02", "C03", "C06", "C10", "C13", "C14"],
+    "B4": ["C07", "C08", "C18"],
+    "B5": ["C07", "C09", "C18"],
+    "B6": ["C04", "C05", "C17", "C06", "C02"],
+    "B7": ["C15", "C16", "C12", "C01"],
+    "B8": ["C01", "C02", "C03", "C06", "C10", "C11", "C12", "C15"],
 }
 ALL = ["C%02d" % i for i in range(1, 21)]
 
